@@ -60,7 +60,7 @@ class Engine:
         return self._cls_cache[name]
 
     def fn_cv(self, module: str, qualname: str, env: Optional[Dict[str, Val]] = None) -> CV:
-        node = self.repo.mod(module).func(qualname)
+        node = self.repo.mod(module).func(qualname, raw=True)
         cls = qualname.split(".")[0] if "." in qualname and self.repo.mod(module).has(qualname.split(".")[0]) and isinstance(
             self.repo.mod(module).top(qualname.split(".")[0]), ast.ClassDef) else ""
         return CV("fn", module, qualname, node, env, cls=cls)
